@@ -1082,9 +1082,9 @@ def bounded_refactorings(tier):
 
 def bounded_refactorings_replay(rp):
     res = run_refactoring_case(rp['case'], rp.get('tier', 'quick'))
-    want = rp.get('clause')
+    want, wfid = rp.get('clause'), rp.get('fid')
     for fid, clause, detail in res['fails']:
-        if want is None or clause == want:
+        if (want is None or clause == want) and (wfid is None or fid == wfid):
             return False, detail[:900]
     return True, 'ok'
 
@@ -2255,9 +2255,9 @@ def bounded_extensions(tier):
 
 def bounded_extensions_replay(rp):
     res = run_extension_case(rp['case'], rp.get('tier', 'quick'))
-    want = rp.get('clause')
+    want, wfid = rp.get('clause'), rp.get('fid')
     for fid, clause, detail in res['fails']:
-        if want is None or clause == want:
+        if (want is None or clause == want) and (wfid is None or fid == wfid):
             return False, detail[:900]
     return True, 'ok'
 
@@ -2601,8 +2601,8 @@ def bounded_structural_setters(tier):
 
 def bounded_structural_setters_replay(rp):
     res = run_structural_case(rp['case'], rp.get('tier', 'quick'))
-    want = rp.get('clause')
+    want, wfid = rp.get('clause'), rp.get('fid')
     for fid, clause, detail in res['fails']:
-        if want is None or clause == want:
+        if (want is None or clause == want) and (wfid is None or fid == wfid):
             return False, detail[:900]
     return True, 'ok'
